@@ -392,3 +392,40 @@ func ZZ_C05_terminatingActiveIsStillThere() {
 	nondet.Observe("active", st.Status.ActiveReplicaSet)
 	nondet.Reach("C05.terminating.manual", why == "manual" && rsA.DeletionTimestamp != nil)
 }
+
+// ZZ_C05_manualModeSetAfterDefaulting: "in manual validation mode elapsed time alone never promotes",
+// through the real Reconcile and for a stored object that no longer is what validation accepted: the
+// ExtendedDaemonSet was defaulted in auto mode (so spec.strategy.canary.duration is filled), then the
+// user switched validationMode to manual and left the rest as it was (optionally with a
+// noRestartsDuration as well).  The canary replica set is older than the duration, not paused, not
+// failed, never restarted; the canary-valid annotation is absent or names another replica set.  Whatever the
+// reconcile answers (an error about the spec, or a status), the active replica set does not change.
+func ZZ_C05_manualModeSetAfterDefaulting() {
+	canary := &datadoghqv1alpha1.ExtendedDaemonSetSpecStrategyCanary{}
+	if nondet.Bool("noRestartsDuration.set") {
+		canary.NoRestartsDuration = &metav1.Duration{Duration: 5 * time.Minute}
+	}
+	ds := zzEDS("ns", "foo", "B", canary) // defaulted in auto mode: duration = 10m
+	ds.Spec.Strategy.Canary.ValidationMode = datadoghqv1alpha1.ExtendedDaemonSetSpecStrategyCanaryValidationModeManual
+	if nondet.Bool("validAnnotationNamesAnotherReplicaSet") {
+		ds.Annotations[datadoghqv1alpha1.ExtendedDaemonSetCanaryValidAnnotationKey] = "foo-earlier"
+	}
+	c := fakeapi.New()
+	rsA := zzRS(ds, "A", "foo-a", nondet.Base().Add(-24*time.Hour))
+	rsA.Status.Desired, rsA.Status.Current, rsA.Status.Ready, rsA.Status.Available = 2, 2, 2, 2
+	rsB := zzRS(ds, "B", "foo-b", nondet.TimeSec("rsB.created", -7200, -1200)) // older than every duration
+	rsB.Status.Desired, rsB.Status.Current, rsB.Status.Ready, rsB.Status.Available = 1, 1, 1, 1
+	ds.Status.ActiveReplicaSet = "foo-a"
+	ds.Status.State = datadoghqv1alpha1.ExtendedDaemonSetStatusStateCanary
+	ds.Status.Canary = &datadoghqv1alpha1.ExtendedDaemonSetStatusCanary{ReplicaSet: "foo-b", Nodes: []string{"node0"}}
+	c.Nodes = append(c.Nodes, &corev1.Node{ObjectMeta: metav1.ObjectMeta{Name: "node0"}}, &corev1.Node{ObjectMeta: metav1.ObjectMeta{Name: "node1"}})
+	c.EDS = append(c.EDS, ds)
+	c.ERS = append(c.ERS, rsA, rsB)
+	for round := 0; round < 2; round++ {
+		_, err := zzReconcile(zzReconciler(c), "ns", "foo")
+		nondet.Observe("error", err != nil)
+		st := zzStoredEDS(c, "ns", "foo")
+		nondet.Assert("C05.manual-after-defaulting.not-promoted-by-time", st.Status.ActiveReplicaSet == "foo-a")
+	}
+	nondet.Reach("C05.manual-after-defaulting.duration-left-in-place", ds.Spec.Strategy.Canary.Duration != nil)
+}
